@@ -15,6 +15,9 @@ pub enum Strategy {
     DfsSym,
     /// on-demand, `run_to_completion()` sent right after spawning
     OnDemand,
+    /// on-demand: `check_fingerprint(init_states[k % len])` first, then `run_to_completion()` (the control
+    /// channel is FIFO, so the request is handled before the run to completion starts)
+    OnDemandProbe(usize),
     /// simulation with the uniform chooser
     SimUniform(u64),
     /// simulation with a scripted chooser (choice k = script[k] % len, 0 beyond the script)
@@ -39,6 +42,7 @@ impl Strategy {
             Strategy::Dfs => "dfs",
             Strategy::DfsSym => "dfs+sym",
             Strategy::OnDemand => "on_demand",
+            Strategy::OnDemandProbe(_) => "on_demand+probe",
             Strategy::SimUniform(_) => "sim",
             Strategy::SimScript(..) => "sim-script",
             Strategy::SimUniformSym(_) => "sim+sym",
@@ -291,6 +295,16 @@ pub fn run_case(m: &GraphModel, cfg: &Config) -> Obs {
         Strategy::Bfs => finish_run(b.spawn_bfs(), false, &rec),
         Strategy::Dfs | Strategy::DfsSym => finish_run(b.spawn_dfs(), false, &rec),
         Strategy::OnDemand => finish_run(b.spawn_on_demand(), true, &rec),
+        Strategy::OnDemandProbe(k) => {
+            let c = b.spawn_on_demand();
+            if !m.inits.is_empty() {
+                let s = m.inits[*k % m.inits.len()];
+                if let Some(f) = std::num::NonZeroU64::new(crate::hooks::fingerprint_of(&s)) {
+                    c.check_fingerprint(f);
+                }
+            }
+            finish_run(c, true, &rec)
+        }
         Strategy::SimUniform(seed) | Strategy::SimUniformSym(seed) => {
             finish_run(b.spawn_simulation(*seed, UniformChooser), false, &rec)
         }
